@@ -94,7 +94,7 @@ def candidates(rec: dict, rnd: random.Random, per_kind: int):
     closes = set(seps[1::2])
     struct = [i for i in range(1, n + 1) if i in toks and toks[i]["type"] in STRUCT]
     rejected = [e["line"] for e in rec["errs"] if e["kind"] == "unexpected" and 1 <= e["line"] <= n]
-    pick = lambda xs: rnd.sample(xs, min(per_kind, len(xs)))  # noqa: E731
+    pick = lambda xs: list(xs) if len(struct) <= 12 else rnd.sample(xs, min(per_kind, len(xs)))  # noqa: E731  (small documents: every application)
     for i in pick(struct) + pick(rejected):      # (for rejected lines the spec decides whether the line is a keyword line by its own kind)
         out.append(dict(t="trail", i=i, n=rnd.choice([1, 3]), k=0, c=rnd.choice([32, 9])))
     for i in pick([i for i in struct if i not in closes]):
@@ -136,7 +136,15 @@ def build_pairs(sources, seed: int, per_kind: int):
     return pairs
 
 
-def validate_pairs(pairs, timeout=3000):
+def validate_pairs(pairs, timeout=3000, batch=250):
+    """-> ({pid: verdicts}, [TlcResult...]); big runs are split so that one JSON file stays small enough for TLC to load"""
+    if len(pairs) > batch:
+        v, rs = {}, []
+        for b in range(0, len(pairs), batch):
+            vb, rb = validate_pairs(pairs[b:b + batch], timeout, batch)
+            v.update({k + b: x for k, x in vb.items()})
+            rs += rb
+        return v, rs
     need_all = any(35 in l for p in pairs for l in p["lines"][:30])
     with Scratch("tlayout") as sc:
         write_dialects(sc, None if need_all else sorted({p["dialect"] for p in pairs}))
@@ -147,7 +155,7 @@ def validate_pairs(pairs, timeout=3000):
     v = {m["pid"]: m["v"] for m in res.tuples("LPAIR")}
     if len(v) != len(pairs):
         raise MachineryError(f"Trace_Layout reported {len(v)} of {len(pairs)} documents")
-    return v, res
+    return v, [res]
 
 
 def file_vs_string(sources):
